@@ -9,7 +9,7 @@ from ..cfg import own_exprs
 from ..facts import Fact, atoms, enumerate_paths
 from ..report import Ctx
 from ..suspend import StaleTime, event_class_names, node_suspension
-from .common import always_before, increment_of, need, node_of, stmts_matching
+from .common import always_before, expand, increment_of, need, node_of, single_defs, stmts_matching
 
 MQ = "happysimulator/components/messaging/message_queue.py"
 DLQ = "happysimulator/components/messaging/dlq.py"
@@ -287,6 +287,22 @@ def rule_queue(ctx: Ctx) -> None:
     ap = [c for c in calls_in(am.node) if path_of(c.func) == "self._messages.append" and [path_of(x) for x in c.args] == ["message"]]
     tp = [c for c in calls_in(am.node) if path_of(c.func) == "self._message_times.append"]
     ctx.ob("C19-2", "G2", am, ap[0] if ap else None, len(ap) == 1 and len(tp) == 1 and not am.is_generator, "the dead-letter queue stores the message handed to it (message and arrival time appended together)")
+    # a dead letter leaves the DLQ only by age *since it was dead-lettered*: every removal from the two parallel deques removes from both, and the
+    # age tested before an expiry removal is measured from `_message_times` (the arrival in the DLQ), not from a field of the message
+    for m in dq.methods.values():
+        pops_m = [c for c in calls_in(m.node) if path_of(c.func) in ("self._messages.popleft", "self._messages.pop", "self._messages.remove", "self._messages.clear")]
+        pops_t = [c for c in calls_in(m.node) if path_of(c.func) in ("self._message_times.popleft", "self._message_times.pop", "self._message_times.remove", "self._message_times.clear")]
+        if pops_m or pops_t:
+            ctx.ob("C19-2", "G2", m, (pops_m or pops_t)[0], len(pops_m) == len(pops_t), f"DeadLetterQueue.{m.name}: messages and their arrival times are removed together ({len(pops_m)} vs {len(pops_t)} removals)")
+    ce = dq.methods["_cleanup_expired"]
+    sd_ce = single_defs(ce)
+    tests = [t_ for t_ in walk_stmts(ce.node.body) if isinstance(t_, ast.If) and any(path_of(k.func) == "self._messages.popleft" for b_ in t_.body for k in calls_in(b_))]
+    okc = len(tests) == 1
+    if okc:
+        te = unparse(expand(tests[0].test, sd_ce)).replace(" ", "")
+        okc = "self._message_times[0]" in te and "self._retention_period" in te and "self._messages[" not in te
+    ctx.ob("C19-2", "G7", ce, tests[0] if tests else None, okc, "DeadLetterQueue._cleanup_expired discards a dead letter only when the time since it *entered the DLQ* (`_message_times[0]`) exceeds the retention period "
+           "— a message that spent long in the queue before being dead-lettered is not lost on arrival")
 
 
 def rule_topic(ctx: Ctx) -> None:
@@ -496,6 +512,7 @@ def run(ctx: Ctx) -> None:
 
 
 MUTANTS = [
+    ("dlq-age-from-publish-time", DLQ, "            msg_time = self._message_times[0]\n", "            msg_time = self._messages[0].created_at\n", "C19-2"),
     ("stale-timer-keeps-marker", MQ, "                self._redelivery_scheduled.discard(message_id)\n                # schedule_redelivery() left the message pollable at the head\n                # of the pending queue. If a poll already picked it up (or it\n                # was acknowledged/dead-lettered meanwhile) this timer is stale.\n                if message_id not in self._pending_queue:\n                    return []\n",
      "                if message_id not in self._pending_queue:\n                    return []\n                self._redelivery_scheduled.discard(message_id)\n", "C19-2"),
     ("deliver-after-ack", MQ, "        if self._messages.get(message_id) is not msg:\n            return None\n", "", "C19-2"),
